@@ -180,6 +180,7 @@ type want struct {
 	tls   *tlsSpec // the client's TLS settings
 	dial  *tlsSpec // configuration of the caller-supplied SetDialTLS function (nil = none)
 	hs    *tlsSpec // configuration of the caller-supplied SetTLSHandshake function (nil = none)
+	h2c   bool     // EnableH2C in force
 }
 
 var forceName = []string{"", "1.1", "2", "3"}
@@ -188,8 +189,8 @@ func (w want) after(x op) want {
 	switch x.K {
 	case "force":
 		w.force = forceName[x.N]
-	case "h2c": // EnableH2C installs its own DialTLSContext, DisableH2C clears the slot
-		w.dial = nil
+	case "h2c": // h2c concerns http:// requests only: neither the client's settings nor a caller-supplied dialler change
+		w.h2c = x.B
 	case "dialtls":
 		w.dial = nil
 		if x.TLS != nil && !x.TLS.Nil {
@@ -434,17 +435,14 @@ func runCell(p *pki, o *origin, cl cell, timeout time.Duration) (res cellResult)
 			}
 		}
 		if ok && !o.spec.HTTPS {
-			if rec.Outcome == "V3" || (rec.Outcome == "V2" && !c.GetTransport().VerifH2AllowHTTP()) {
+			if rec.Outcome == "V3" || (rec.Outcome == "V2" && !w.h2c) {
 				viol("plain-http-used-"+used, "plain HTTP request served over HTTP/"+used+" without h2c being enabled")
 			}
 		}
 		if rec.Outcome == "Cleartext" {
 			how := "no-custom-dialer"
 			if c.DialTLSContext != nil {
-				how = "EnableH2C-dialer" // the harness never calls SetDialTLS: only EnableH2C installs one
-				if !c.GetTransport().VerifH2AllowHTTP() {
-					how = "stale-dialer-after-DisableH2C"
-				}
+				how = "DialTLSContext-set" // (before ecf6c40 EnableH2C installed a plain dialler there)
 			}
 			viol("https-in-cleartext/"+how, "https request written in clear to the TLS port: no certificate was checked")
 		}
